@@ -325,14 +325,11 @@ class LifeCycle:
         return {r.node.id for r in self.recorders if pred is None or pred(r)}
 
 
-_cache = {}
-
-
 def lifecycle(ctx, cls):
-    key = (id(ctx.an), cls.qualname)
-    if key not in _cache:
-        _cache[key] = LifeCycle(ctx.an, ctx.prog, cls)
-    return _cache[key]
+    cache = ctx.an.__dict__.setdefault('_lifecycle_cache', {})
+    if cls.qualname not in cache:
+        cache[cls.qualname] = LifeCycle(ctx.an, ctx.prog, cls)
+    return cache[cls.qualname]
 
 
 def worker_classes(prog, internal=True):
